@@ -649,13 +649,11 @@ def sol_check(ctx, c, eps_lab, B, sol, imp_u, imp_d, tol, key_kind, what_prefix,
     eps_kkt = 0.0
     for i in cons:
         t = 1e-7 * max(abs(lam), mags[i], 1e-300)
-        # a good consumed at a negligible level is as good as not consumed: only d <= lambda is required
-        negligible = xs[i] <= 1e-7 * scaleB and c['gamma'][i] is not None
         gap = d[i] - lam
-        if (abs(gap) > t and not negligible) or (negligible and gap > t):
+        if abs(gap) > t:
             fails.append(('marginal-utility', f'marginal utility of the consumed good {labels[i]} differs from the others',
                           lam, d[i]))
-        eps_kkt = max(eps_kkt, abs(gap) if not negligible else max(gap, 0.0))
+        eps_kkt = max(eps_kkt, abs(gap))
     # 4. not consumed: marginal utility at zero not above lambda
     for i in range(n):
         if i not in cons:
@@ -936,9 +934,8 @@ def kkt_in_coq(ctx, st, items):
             mag = max(mag, max(abs(m) + 1 for m in c['mu']))
         epsq = 2e-7 * mag
         delta = 2e-6 * max(1.0, abs(r['budget'])) + abs(info['tot'] - r['budget']) * 1.000001 + 1e-300
-        negl = 1e-7 * max(1.0, abs(r['budget']))
         rows.append('(' + coq_list([f'({qlit(x)}, {qlit(d)}, 1)' for x, d in trip]) +
-                    f', {qlit(r["budget"])}, {qlit(lam)}, {qlit(epsq)}, {qlit(delta)}, {qlit(negl)})')
+                    f', {qlit(r["budget"])}, {qlit(lam)}, {qlit(epsq)}, {qlit(delta)})')
     if not rows:
         return
     files = {}
@@ -947,8 +944,8 @@ def kkt_in_coq(ctx, st, items):
         files[f'kkt_{i // Bn}'] = (
             'From Coq Require Import QArith List.\nImport ListNotations.\nFrom BV Require Import Model.Mdcev.\n'
             'Open Scope Q_scope.\n'
-            "Definition chk (c : list (Q * Q * Q) * Q * Q * Q * Q * Q) : bool :=\n"
-            "  let '(l, B, lam, e, dl, ng) := c in kkt_checkQ l B lam e dl ng.\n"
+            "Definition chk (c : list (Q * Q * Q) * Q * Q * Q * Q) : bool :=\n"
+            "  let '(l, B, lam, e, dl) := c in kkt_checkQ l B lam e dl.\n"
             'Definition cases := ' + coq_list(rows[i:i + Bn], ';\n') + '.\n'
             'Eval vm_compute in (List.map chk cases).\n')
     outs = ctx.coq_eval_many(files)
@@ -1104,11 +1101,19 @@ def run(ctx):
         gen_all(ctx)
     except Untranslatable as e:
         ctx.tie_broken('extract:MdcevFormulas', str(e))
+    import time
+    t0 = time.time()
     b = ctx.build()
+    t1 = time.time()
     stream_pieces(ctx)
+    t2 = time.time()
     if b.ok:
         stream_trees(ctx)
+    t3 = time.time()
     stream_forecast(ctx)
+    t4 = time.time()
+    ctx.notes['wall_breakdown_s'] = {'build': round(t1 - t0, 1), 'pieces': round(t2 - t1, 1),
+                                     'trees': round(t3 - t2, 1), 'forecast': round(t4 - t3, 1)}
 
 
 def replay(ctx, path):
@@ -1127,7 +1132,9 @@ def replay(ctx, path):
     else:
         draws = wit.get('draws') or [wit['draw']]
         c.update({'budget': wit['budget'], 'draws': draws, 'brute': True, 'api': mode == 'forecast-api',
-                  'comparison': True})
+                  'comparison': 'comparison' in str(w.get('key', ''))})
+        if 'stale-dual' in str(w.get('key', '')):
+            c['tag'] = 'stale-dual'
         cs = [c]
         if wit.get('other_labels'):
             cs.insert(0, dict(c, labels=wit['other_labels'], api=False, comparison=False))
